@@ -949,6 +949,14 @@ pub fn run_c14(ctx: &mut Ctx) {
             crate::hostile::perturb(&mut inp.1, &mut rng);
         }
     }
+    // inputs whose resolution takes several rounds in ways the generator does not produce
+    // (types waiting for generated vftable structs, deferred after their own table was made),
+    // each several times because the attempt order varies between builds
+    for (k, (_, mods, ptrw)) in crate::c09::dedicated_inputs().into_iter().enumerate() {
+        for rep in 0..ctx.tier.pick(6, 24) {
+            inputs.push((format!("kd{k}r{rep}_"), mods.clone(), ptrw));
+        }
+    }
     let seed = ctx.seed;
     struct R {
         bad: Vec<Bad>,
@@ -974,6 +982,14 @@ pub fn run_c14(ctx: &mut Ctx) {
                 }
                 if rng.chance(1, 6) {
                     m.backends.push(Backend::new("json").with_epilogue(format!("JSON_MARKER_{i}")));
+                }
+                if rng.chance(1, 4) {
+                    // sections that end in a line comment, without a final newline: the next
+                    // section (or the first generated item) must not end up inside the comment
+                    m.backends.push(Backend::new("rust").with_prologue(format!("pub const P3_{i}: u8 = 1; // trailing note")).with_epilogue(format!("pub const E3_{i}: u8 = 2; // trailing note")));
+                    if rng.coin() {
+                        m.backends.push(Backend::new("rust").with_prologue(format!("pub const P4_{i}: u8 = 3;")).with_epilogue(format!("pub const E4_{i}: u8 = 4;")));
+                    }
                 }
             }
             if rng.chance(1, 3) {
